@@ -88,6 +88,7 @@ def filterP : P Sprout.Filter := do
   | "DL" => do let n ← nat; pure (.demeLimit n)
   | "LL" => do let n ← nat; pure (.levelLimit n)
   | "SS" => pure .skipSame
+  | "MAHA" => pure .mahalanobis
   | _ => failure
 
 def wrapperP : P Problem.Wrapper := do
@@ -140,9 +141,13 @@ def sproutEnvP : P Sprout.Env := do
   let dists ← list (do
     let g ← list rat; let id ← idP; let d ← optRatP
     pure (g, id, d))
+  let mahas ← list (do
+    let g ← list rat; let id ← idP; let b ← bool
+    pure (g, id, b))
   pure {
     nbc := fun id => (nbcs.find? (·.1 == id)).map fun e => (lookupMat e.2.1 e.2.2.1, e.2.2.2)
-    dist := fun g id => ((dists.find? fun e => e.1 == g && e.2.1 == id).map (·.2.2)).getD none }
+    dist := fun g id => ((dists.find? fun e => e.1 == g && e.2.1 == id).map (·.2.2)).getD none
+    maha := fun g id => (mahas.find? fun e => e.1 == g && e.2.1 == id).map (·.2.2) }
 
 def evP : P Ev := do
   let t ← tok
